@@ -830,6 +830,29 @@ fn in_range(t: &T<f64>, lo: f64, hi: f64) -> bool {
 
 /// Generate a random straight-line DAG program. Operands are chosen among all earlier nodes with replacement, so
 /// fan-out, diamonds and x∘x self-use are the norm. Domain restrictions are decided from actual reference values.
+pub fn special_values(r: &mut Rng, dims: &[usize]) -> Vec<f64> {
+    let n = numel(dims);
+    let last = *dims.last().unwrap_or(&1);
+    match r.below(5) {
+        0 => vec![0.0; n],
+        1 => vec![1.0; n],
+        2 => vec![r.int(-3, 3); n],
+        3 => {
+            // ones where the last two indices agree
+            let rows = if dims.len() >= 2 { dims[dims.len() - 2] } else { 1 };
+            (0..n).map(|i| if (i / last) % rows == i % last { 1.0 } else { 0.0 }).collect()
+        }
+        _ => {
+            // one-hot rows
+            let mut v = vec![0.0; n];
+            for row in 0..n / last {
+                v[row * last + r.below(last)] = 1.0;
+            }
+            v
+        }
+    }
+}
+
 pub fn gen_leaves(r: &mut Rng, cfg: &GenCfg) -> GenState {
     let base_rank = r.range(1, cfg.max_rank);
     let base: Vec<usize> = (0..base_rank).map(|_| r.range(1, cfg.max_dim)).collect();
@@ -853,6 +876,9 @@ pub fn gen_leaves(r: &mut Rng, cfg: &GenCfg) -> GenState {
         } else {
             (0..n).map(|_| 0.25 * r.int(-12, 12)).collect()
         };
+        // now and then a leaf with structure a value-dependent shortcut could key on: all zeros, all ones, all equal,
+        // identity-like (ones on the diagonal of the last two dimensions), one-hot rows
+        let vals: Vec<f64> = if !cfg.unit_values && r.chance(1, 10) { special_values(r, &dims) } else { vals };
         let mut tracked = !r.chance(cfg.untracked_eighths, 8);
         if li == nleaf - 1 && !any_tracked {
             tracked = true;
